@@ -168,6 +168,16 @@ pub(crate) fn lock(to: &SigningKey, amount: u128) -> Action {
     })
 }
 
+pub(crate) fn lock_asset(to: &SigningKey, amount: u128, asset: Denom) -> Action {
+    Action::BridgeLock(BridgeLock {
+        to: addr(to),
+        amount,
+        asset,
+        fee_asset: nria().into(),
+        destination_chain_address: "rollup-dest".into(),
+    })
+}
+
 pub(crate) fn unlock(bridge: &SigningKey, to: &SigningKey, amount: u128, event: &str) -> Action {
     Action::BridgeUnlock(BridgeUnlock {
         to: addr(to),
@@ -296,6 +306,11 @@ pub(crate) fn family(name: &str) -> Vec<TxT> {
             tx("bridge-transfer-br1-br1-5-e7", &W, vec![bridge_transfer(&BR1, &BR1, 5, "e7")]),
             tx("lock-3-br1-by-w", &W, vec![lock(&BR1, 3)]),
             tx("unlock-br2-9-e1", &W, vec![unlock(&BR2, &ALICE, 9, "e1")]),
+            // two deposits from one transaction (distinct action indices, two bridges), a lock in an
+            // asset the bridge does not hold, a lock to a plain account
+            tx("bundle-lock-br1-4-then-br2-6", &CAROL, vec![lock(&BR1, 4), lock(&BR2, 6)]),
+            tx("lock-other-asset-br1", &CAROL, vec![lock_asset(&BR1, 2, other_asset())]),
+            tx("lock-to-plain-account", &CAROL, vec![lock(&DAVE, 2)]),
         ],
         // validator updates on a chain that has not reached Aspen (legacy validator-set storage)
         "validators-pre-aspen" => vec![
@@ -921,6 +936,11 @@ impl TModel {
         None
     }
 
+    /// Hex id (sha256 of the signed bytes) of the transaction being judged on this thread.
+    fn current_tx_id() -> String {
+        CURRENT_TX_ID.with(|c| c.borrow().clone())
+    }
+
     fn judge_bridge(
         &self,
         t_name: &str,
@@ -938,19 +958,30 @@ impl TModel {
                 new_deposits.remove(pos);
             }
         }
-        let mut want: Vec<(String, u128, String)> = Vec::new(); // (bridge hex, amount, dest)
-        for a in actions {
-            match a {
-                Action::BridgeLock(l) => {
-                    want.push((report::hex(&l.to.bytes()), l.amount, l.destination_chain_address.clone()))
-                }
-                Action::BridgeTransfer(t) => {
-                    want.push((report::hex(&t.to.bytes()), t.amount, t.destination_chain_address.clone()))
-                }
-                _ => {}
-            }
+        // (bridge hex, amount, dest, rollup id hex of the credited bridge, its asset, tx id, action index)
+        type Dep = (String, u128, String, String, String, String, String);
+        let tx_id = Self::current_tx_id();
+        let bridge_field = |bridge: &[u8; 20], field: &str| -> String {
+            pre.verifiable.get(&format!("bridge/account/{}/{field}", b64(bridge))).map(|v| report::hex(&v[v.len().saturating_sub(32)..])).unwrap_or_default()
+        };
+        let mut want: Vec<Dep> = Vec::new();
+        for (idx, a) in actions.iter().enumerate() {
+            let (to, amount, dest) = match a {
+                Action::BridgeLock(l) => (l.to.bytes(), l.amount, l.destination_chain_address.clone()),
+                Action::BridgeTransfer(t) => (t.to.bytes(), t.amount, t.destination_chain_address.clone()),
+                _ => continue,
+            };
+            want.push((
+                report::hex(&to),
+                amount,
+                dest,
+                bridge_field(&to, "rollup_id"),
+                bridge_field(&to, "asset_id"),
+                tx_id.clone(),
+                idx.to_string(),
+            ));
         }
-        let mut got: Vec<(String, u128, String)> = new_deposits
+        let mut got: Vec<Dep> = new_deposits
             .iter()
             .map(|d| {
                 let field = |k: &str| -> String {
@@ -959,7 +990,8 @@ impl TModel {
                         .unwrap_or_default()
                         .to_string()
                 };
-                (field("bridge"), field("amount").parse().unwrap_or(0), field("dest"))
+                let asset = field("asset").parse::<Denom>().map(|d| report::hex(d.to_ibc_prefixed().as_bytes())).unwrap_or_default();
+                (field("bridge"), field("amount").parse().unwrap_or(0), field("dest"), field("rollup"), asset, field("tx"), field("idx"))
             })
             .collect();
         want.sort();
@@ -1114,6 +1146,10 @@ async fn stored_validators(state: &StateDelta<Snapshot>) -> (BTreeMap<[u8; 20], 
     (stored, state.get_validator_count().await.unwrap_or(u64::MAX))
 }
 
+thread_local! {
+    static CURRENT_TX_ID: std::cell::RefCell<String> = const { std::cell::RefCell::new(String::new()) };
+}
+
 fn bridge_admin_authority<'a>(pre: &Dump, b: &str, signer: &[u8; 20]) -> Option<(&'a str, Option<[u8; 20]>)> {
     let existed = pre.verifiable.contains_key(&format!("bridge/account/{b}/rollup_id"));
     if existed {
@@ -1264,6 +1300,10 @@ impl Model for TModel {
                 let result = out.result.unwrap();
                 let post = Arc::new(block_on(dump_state(&post_state)));
                 let pre_state = self.fork_of(st);
+                CURRENT_TX_ID.with(|c| {
+                    use sha2::Digest as _;
+                    *c.borrow_mut() = report::hex(&sha2::Sha256::digest(&out.tx_bytes));
+                });
                 if let Some(v) =
                     self.judge_tx(&t_name, &signer, &actions, nonce_mode, is_replay, &pre_state, &pre, &post, &result)
                 {
